@@ -296,7 +296,7 @@ theorem C02_build_truthful (o : Opts) (Ω : Oracles) (verTxt : Bytes) (verId rt0
     r.hdr.get (bs "Content-Length") = natToDec r.block.raw.length ∧
     (r.hdr.get (bs "WARC-Block-Digest") = r.block.blockDigest.format H r.block.raw ∨ r.block.blockDigest.valid H r.block.raw = true) := by
   unfold build at hb he
-  simp only [M.bind_def] at hb he
+  simp only at hb he
   -- the header the validation starts from has a Content-Length
   generalize hh1 : (if (o.addMissingRecordId && !hdr.has (bs "WARC-Record-ID")) = true then hdr.setId (bs "WARC-Record-ID") newId else hdr) = hdr1 at hb he
   have hcl2 : (if (o.addMissingContentLength && !hdr1.has (bs "Content-Length")) = true then setInt hdr1 (bs "Content-Length") content.length else hdr1).has (bs "Content-Length") = true := by
@@ -304,7 +304,10 @@ theorem C02_build_truthful (o : Opts) (Ω : Oracles) (verTxt : Bytes) (verId rt0
     cases hh : hdr1.has (bs "Content-Length") with
     | true => simp [hh]
     | false => simp only [Bool.not_false, ↓reduceIte]; unfold setInt; exact has_set_same _ _ _
-  generalize (if (o.addMissingContentLength && !hdr1.has (bs "Content-Length")) = true then setInt hdr1 (bs "Content-Length") content.length else hdr1) = hdr2 at hb he hcl2
+  generalize (o.addMissingContentLength && !hdr1.has (bs "Content-Length")) = cla at hb he hcl2
+  generalize (if cla = true then setInt hdr1 (bs "Content-Length") content.length else hdr1) = hdr2 at hb he hcl2
+  unfold buildBody at hb he
+  simp only [M.bind_def] at hb he
   cases hv : validateHeader o Ω verId ⟨hdr2, []⟩ with
   | mk rv sv =>
     rw [hv] at hb he
@@ -321,19 +324,26 @@ theorem C02_build_truthful (o : Opts) (Ω : Oracles) (verTxt : Bytes) (verId rt0
         cases rp with
         | error e => simp at he
         | ok b =>
-          simp only at hb he
+          simp only [M.hdr_def, M.setHdr_def] at hb he
           have kp : sp.hdr.has (bs "Content-Length") = true := by
             have := (parseBlock_keepsCL o Ω (if (rt0 == 0) = true then rtv else rt0) content false).h sv kv
             rw [hp] at this; exact this
-          cases hd : validateDigest H o (if (rt0 == 0) = true then rtv else rt0) b false sp with
+          -- the adjustment of a length the builder added keeps the field
+          generalize hsq : ({ hdr := if (cla && b.kind == BlockKind.warcFields && b.raw.length != content.length) = true then setInt sp.hdr (bs "Content-Length") b.raw.length else sp.hdr, fnd := sp.fnd } : St) = sq at hb he
+          have kq : sq.hdr.has (bs "Content-Length") = true := by
+            rw [← hsq]; simp only
+            split
+            · unfold setInt; exact has_set_same _ _ _
+            · exact kp
+          cases hd : validateDigest H o (if (rt0 == 0) = true then rtv else rt0) b false sq with
           | mk rd sd =>
             rw [hd] at hb he
             cases rd with
             | error e => simp at he
             | ok u =>
-              simp only [M.hdr_def, M.pure_def, Option.some.injEq] at hb
+              simp only [M.pure_def, Option.some.injEq] at hb
               subst hb
-              exact C02_validate_truthful H o _ b false sp sd hspec hfixcl hfix hadd kp hd
+              exact C02_validate_truthful H o _ b false sq sd hspec hfixcl hfix hadd kq hd
 
 end
 end Gowarc.Props.C02
